@@ -100,6 +100,22 @@ def r11_1(ck):
     ok = any(A.unparse(r.value) == 'self.divider' for r in _returns(gd))
     ck.require(ok, 'R11.1', gd, gd.node.name,
                'a declared divider is returned as is', None)
+    # ... whatever the node holds: the choice depends on the declaration
+    # (and, for the default, on whether the node carries a process) only
+    for r in _returns(gd):
+        g = cfg.guards(cfg.node(r))
+        other = [a for a in g if not any(
+            t in ' '.join(str(x) for x in a[1:])
+            for t in ('self.divider', 'DEFAULT_SCHEMA', 'self.topology'))]
+        none = r.value is None or (isinstance(r.value, ast.Constant)
+                                   and r.value.value is None)
+        ck.require(not other and not none, 'R11.1', gd, r,
+                   'the divider depends on the declaration only',
+                   '_get_divider answers %s under %s: a divider declared '
+                   'on such a node (a branch-level split_dict, a custom '
+                   'divider) is ignored and its children are divided one '
+                   'by one' % (A.unparse(r.value) if r.value is not None
+                               else 'None', sorted(other)), r)
 
 
 def _list_ret(r, f):
@@ -319,12 +335,21 @@ def r11_3(ck):
                 x, ast.Call) and A.call_name(x) == 'deepcopy', at=d.stmt)
             inside = False
             if copied:
-                # find the deepcopy statement and require it in the loop
+                # find the deepcopy statement and require it in the loop,
+                # evaluated for every daughter that inherits: no guard on
+                # anything that an earlier iteration may have set (a memo)
+                cfg = cfg_of(f.node)
+                dvar = A.unparse(loop.target.elts[0] if isinstance(
+                    loop.target, ast.Tuple) else loop.target)
                 for c in A.calls_in(f.node, 'deepcopy'):
                     if within(c, loop) and derives(
                             f.node, c, lambda x: isinstance(x, ast.Call)
                             and A.call_name(x) == getter, at=c):
-                        inside = True
+                        extra = cfg.guards(cfg.node(c)) - cfg.guards(
+                            cfg.loops[id(loop)]['body_entry'])
+                        memo = [a2 for a2 in extra if dvar not in ' '.join(
+                            str(x) for x in a2[1:])]
+                        inside = not memo
             ck.require(copied and inside, 'R11.3', f, d.stmt,
                        "each daughter gets its own deep copy of the "
                        "mother's %s" % nm,
@@ -465,11 +490,21 @@ def r11_5_6(ck):
                   if isinstance(s, ast.Assign) and isinstance(
                       s.targets[0], ast.Subscript) and derives(
                       f.node, s.value, lambda x: A.is_name(x, nm), at=s)]
+        # the division result and everything taken out of it
+        tainted = {nm}
+        for lp in A.walk_no_nested(f.node):
+            if isinstance(lp, ast.For) and derives(
+                    f.node, lp.iter, lambda x: A.is_name(x, nm), at=lp):
+                tainted |= {y.id for y in ast.walk(lp.target)
+                            if isinstance(y, ast.Name)}
+        import re as _re
         for s in stores:
             g = cfg.guards(cfg.node(s))
             extra = set()
             for a in g:
-                if nm in ' '.join(str(x) for x in a[1:]):
+                txt = ' '.join(str(x) for x in a[1:])
+                if any(_re.search(r'\b%s\b' % _re.escape(t), txt)
+                       for t in tainted):
                     extra.add(a)
             ok = extra <= {('truthy', nm), ('isnot', nm, 'None')}
             ck.require(ok, 'R11.6', f, s,
